@@ -398,6 +398,11 @@ func makeIntrinsics() map[string]intrinsic {
 		in.goPanicf("reflect: call of reflect.Value.IsNil on %s Value", kindName(kindOf(r.t)))
 		return nil
 	}
+	m["(reflect.Value).IsZero"] = func(in *Interp, _ *frame, _ *ssa.CallCommon, a []Value) Value {
+		r := rv(a[0])
+		in.rvMustValid(r, "IsZero")
+		return in.isZeroTerm(in.rvLoad(r), r.t)
+	}
 	m["(reflect.Value).Interface"] = func(in *Interp, _ *frame, _ *ssa.CallCommon, a []Value) Value {
 		r := rv(a[0])
 		in.rvMustValid(r, "Interface")
@@ -683,6 +688,47 @@ func makeIntrinsics() map[string]intrinsic {
 			}
 		}
 		return nil
+	}
+
+	// ---------------------------------------------------------- internal/bytealg
+	// (assembly in the standard library; bytes.IndexByte, bytes.Repeat,
+	// strings.Builder etc. bottom out here)
+	m["internal/bytealg.IndexByte"] = func(in *Interp, _ *frame, _ *ssa.CallCommon, a []Value) Value {
+		sl := a[0].(SliceV)
+		c := term(a[1])
+		if sl.arr == nil {
+			return I64(-1)
+		}
+		n := int(in.ex.Choose(sl.ln))
+		off := int(in.ex.Choose(sl.off))
+		for i := 0; i < n; i++ {
+			if in.ex.Branch(Eq(term(in.loadCell(sl.arr.kids[off+i])), c)) {
+				return I64(int64(i))
+			}
+		}
+		return I64(-1)
+	}
+	m["internal/bytealg.IndexByteString"] = func(in *Interp, _ *frame, _ *ssa.CallCommon, a []Value) Value {
+		sv := a[0].(StringV)
+		if !sv.isPlain() {
+			in.unsupported("IndexByteString on an opaque string")
+		}
+		c := term(a[1])
+		for i, b := range sv.b {
+			if in.ex.Branch(Eq(b, c)) {
+				return I64(int64(i))
+			}
+		}
+		return I64(-1)
+	}
+	m["internal/bytealg.MakeNoZero"] = func(in *Interp, _ *frame, _ *ssa.CallCommon, a []Value) Value {
+		n := in.concretizeLen(in.idx64(term(a[0]), types.Typ[types.Int]), "MakeNoZero")
+		if int64(n) < 0 || n > 1<<24 {
+			in.goPanicf("makeslice: len out of range")
+		}
+		et := types.Typ[types.Uint8]
+		arr := in.newArrayCell(et, int(n))
+		return SliceV{arr: arr, off: I64(0), ln: I64(int64(n)), cp: I64(int64(n)), elem: et}
 	}
 
 	// ---------------------------------------------------------- sync.Pool
@@ -1072,6 +1118,55 @@ func (in *Interp) syncMap(recv Value) *MapObj {
 		in.syncMaps[c] = mo
 	}
 	return mo
+}
+
+// isZeroTerm is reflect.Value.IsZero: the value equals the zero value of its
+// type (floats: all bits zero, as reflect does it).
+func (in *Interp) isZeroTerm(v Value, t types.Type) *Term {
+	switch x := v.(type) {
+	case *Term:
+		if x.sort == SBool {
+			return Not(x)
+		}
+		if x.sort == SFP32 || x.sort == SFP64 {
+			b := in.fpBitsOf(x)
+			return Eq(b, Const(b.sort, 0))
+		}
+		return Eq(x, Const(x.sort, 0))
+	case StringV:
+		if !x.isPlain() {
+			in.unsupported("IsZero of an opaque string")
+		}
+		return Bool(len(x.b) == 0)
+	case Ptr:
+		return Bool(x.c == nil)
+	case SliceV:
+		return Bool(x.arr == nil)
+	case MapV:
+		return Bool(x.m == nil)
+	case *FuncV:
+		return Bool(x == nil)
+	case IfaceV:
+		return Bool(x.t == nil)
+	case *StructV:
+		st := under(t).(*types.Struct)
+		r := True
+		for i, f := range x.f {
+			r = And(r, in.isZeroTerm(f, st.Field(i).Type()))
+		}
+		return r
+	case *ArrayV:
+		et := under(t).(*types.Array).Elem()
+		r := True
+		for _, e := range x.e {
+			r = And(r, in.isZeroTerm(e, et))
+		}
+		return r
+	case nil:
+		return True
+	}
+	in.unsupported(fmt.Sprintf("IsZero of %T", v))
+	return nil
 }
 
 // poolSet replaces a pool's item list (undone at the end of the path; not a
